@@ -140,6 +140,21 @@ var kinds = []kind{
 		build: func(f *canvas.FontFace, s string) *canvas.Text { return canvas.NewTextLine(f, s, canvas.Left) }},
 	{name: "NewTextLine(face 12pt, s, Left) drawn with Translate(30,25).Rotate(30).Scale(1.5,1.5)", size: 12, m: viewRotated,
 		build: func(f *canvas.FontFace, s string) *canvas.Text { return canvas.NewTextLine(f, s, canvas.Left) }},
+	{name: "RichText(face 12pt).SetWritingMode(VerticalRL).SetTextOrientation(Upright).WriteString(s).ToText(0, 0, Left, Top, 0, 0) drawn with Translate(30,25).Rotate(30).Scale(1.5,1.5)", size: 12, m: viewRotated, vertical: true,
+		build: func(f *canvas.FontFace, s string) *canvas.Text {
+			rt := canvas.NewRichText(f)
+			rt.SetWritingMode(canvas.VerticalRL)
+			rt.SetTextOrientation(canvas.Upright)
+			rt.WriteString(s)
+			return rt.ToText(0, 0, canvas.Left, canvas.Top, 0, 0)
+		}},
+	{name: "RichText(face 12pt).SetWritingMode(VerticalRL).WriteString(s).ToText(0, 0, Left, Top, 0, 0) drawn with Translate(30,25).Rotate(30).Scale(1.5,1.5)", size: 12, m: viewRotated, vertical: true,
+		build: func(f *canvas.FontFace, s string) *canvas.Text {
+			rt := canvas.NewRichText(f)
+			rt.SetWritingMode(canvas.VerticalRL)
+			rt.WriteString(s)
+			return rt.ToText(0, 0, canvas.Left, canvas.Top, 0, 0)
+		}},
 }
 
 const (
